@@ -16,6 +16,18 @@ HERE = os.path.dirname(os.path.dirname(os.path.abspath(__file__)))
 sys.path.insert(0, HERE)
 
 
+def bookkeeping(model):
+    """caches of a model object the annealers have no business changing"""
+    out = []
+    for attr in ("variables", "mapping", "reverse_mapping", "degree", "num_binary_variables", "max_index", "num_ancillas", "name"):
+        try:
+            v = getattr(model, attr)
+            out.append(repr(sorted(v.items(), key=repr)) if isinstance(v, dict) else (repr(sorted(v, key=repr)) if isinstance(v, set) else repr(v)))
+        except AttributeError:
+            out.append(None)
+    return out
+
+
 def main():
     calls_path, out_path = sys.argv[1], sys.argv[2]
     from harness import cbuild
@@ -74,7 +86,11 @@ def main():
                 model = classes[c["kind"]](d) if c["kind"] != "dict" else dict(d)
                 for pk, pv in c.get("post", []):          # edits after construction (e.g. to leave a stale variable)
                     model[tuple(L(x) for x in pk)] = pv
+                if c.get("remap") and hasattr(model, "set_mapping"):
+                    mp = model.mapping
+                    model.set_mapping({k: len(mp) - 1 - v for k, v in mp.items()})
                 before = dict(model)
+                book = bookkeeping(model)
                 reported, maxindex = [], -1
                 if c["kind"] != "dict":
                     try:
@@ -101,7 +117,7 @@ def main():
                     ev = open(trace_file).read().splitlines()
                 return {"raised": raised, "api": api, "rtype": rtype, "best": api_best, "marshal": dict(captured), "ev": ev,
                         "reported": reported, "maxindex": maxindex,
-                        "unchanged": dict(model) == before and type(model).__name__ == c["kind"]}
+                        "unchanged": dict(model) == before and type(model).__name__ == c["kind"] and bookkeeping(model) == book}
             r1 = one()
             rec = {"id": c["id"]}
             rec.update(r1)
